@@ -1,53 +1,18 @@
 /-
-`LTrans`: one loop operation described by its effect on the tables, the counter, the collision
-slot, the id counter and `pending` — the case analysis of `lstep` done once, under `Inv0`.
+`LTrans`: one loop operation described by its effect on the tables, the counter, the send stamps,
+the collision slot, the id counter and `pending` — the case analysis of `lstep` done once, under
+`Inv0`.
 -/
-import Proofs.Lemmas.ClientGhost1
+import Proofs.Lemmas.ClientEffects
 namespace Client
 open Client.Spec
 
-theorem PubackEff.transfer {s s0 : State} {i r : Nat} {res : State × Outcome} (h : PubackEff s0 i r res)
-    (hc : s0.core = s.core) (hv : s0.ver = s.ver) : PubackEff s i r (drainEvents res.1, res.2) := by
-  obtain ⟨e1, e2, e3, e4, e5⟩ := core_eqs hc
-  have e6 : s0.lastPkid = s.lastPkid := congrArg Core.lastPkid hc
-  cases h with
-  | oob s' h hc' => exact .oob _ (by rw [← e1]; exact h) (by rw [core_drain, hc', hc])
-  | empty s' h hc' =>
-    exact .empty _ (by rw [← e1]; exact h) (by rw [core_drain, hc', hc, hv, e5])
-  | freed s' x h hn hc' =>
-    refine .freed _ x (by rw [← e1]; exact h) ?_ (by rw [core_drain, hc', hc, hv, e1, e3, e5])
-    rw [← hv, ← e4]; exact hn
-  | released s' x c h hv' hcol hci hc' =>
-    exact .released _ x c (by rw [← e1]; exact h) (by rw [← hv]; exact hv') (by rw [← e4]; exact hcol) hci
-      (by rw [core_drain, hc', hc, hv, e1, e3, e5])
+/-- the id is in use: a publish is stored under it or its release is pending -/
+def busyId (s : State) (i : Nat) : Prop :=
+  (∃ x, s.outgoingPub[i]? = some (some x)) ∨ relContains s i = true
 
-theorem PubrecEff.transfer {s s0 : State} {i r : Nat} {res : State × Outcome} (h : PubrecEff s0 i r res)
-    (hc : s0.core = s.core) (hv : s0.ver = s.ver) : PubrecEff s i r (drainEvents res.1, res.2) := by
-  obtain ⟨e1, e2, e3, e4, e5⟩ := core_eqs hc
-  cases h with
-  | unsol s' h hc' => exact .unsol _ (by rw [← e1]; exact h) (by rw [core_drain, hc', hc])
-  | failed s' x h hv' hc' =>
-    exact .failed _ x (by rw [← e1]; exact h) (by rw [← hv]; exact hv') (by rw [core_drain, hc', hc, e1])
-  | moved s' x h hv' hi hc' =>
-    exact .moved _ x (by rw [← e1]; exact h) (by rw [← hv]; exact hv') (by rw [← e2]; exact hi)
-      (by rw [core_drain, hc', hc, e1, e2])
-
-theorem PubcompGen.transfer {s s0 : State} {i r : Nat} {res : State × Outcome} (h : PubcompGen s0 i r res)
-    (hc : s0.core = s.core) (hv : s0.ver = s.ver) : PubcompGen s i r (drainEvents res.1, res.2) := by
-  obtain ⟨e1, e2, e3, e4, e5⟩ := core_eqs hc
-  have hrc : ∀ j, relContains s0 j = relContains s j := by intro j; unfold relContains; rw [e2]
-  cases h with
-  | unsol s' o h hp hr hi hcol hl =>
-    refine .unsol _ _ (by rw [← hrc]; exact h) (hp.trans e1) (hr.trans e2) (hi.trans e3) ?_ (hl.trans e5)
-    rcases hcol with h' | h'
-    · exact Or.inl (h'.trans e4)
-    · exact Or.inr ⟨by rw [← hv]; exact h'.1, h'.2⟩
-  | done s' o h dec hdec hp hr hi hcol hl =>
-    refine .done _ _ (by rw [← hrc]; exact h) dec (by rw [← hv]; exact hdec) (hp.trans e1) (by simp [drainEvents, hr, e2])
-      (by simp [drainEvents, hi, e3]) ?_ (hl.trans e5)
-    rcases hcol with h' | h'
-    · exact Or.inl ⟨h'.1.trans e4, by rw [← e4]; exact h'.2⟩
-    · exact Or.inr h'
+/-- the id counter has advanced -/
+def Core.bump (c : Core) (s : State) : Core := { c with lastPkid := (nextPkidSt s).lastPkid }
 
 inductive LTrans (s : State) (pd : List Request) : LOp → State → List Request → Prop
   /-- branch disabled / nothing to do -/
@@ -57,32 +22,99 @@ inductive LTrans (s : State) (pd : List Request) : LOp → State → List Reques
   /-- SUBSCRIBE / UNSUBSCRIBE consumed a packet id -/
   | nextId (u : UserReq) (s' : State) (hpd : pd = []) (hg : selectEnabled s [] = true)
       (hu : (∃ n, n ≠ 0 ∧ u = .subscribe n) ∨ u = .unsubscribe)
-      (hc : s'.core = { s.core with lastPkid := (nextPkidSt s).lastPkid }) : LTrans s pd (.user u) s' pd
+      (hc : s'.core = s.core.bump s) : LTrans s pd (.user u) s' pd
   | storeFresh (q t : Nat) (s' : State) (hpd : pd = []) (hg : selectEnabled s [] = true) (hq : q ≠ 0)
-      (hslot : s.outgoingPub[nextPkidVal s]? = some none)
-      (hc : s'.core = { s.core with pub := s.outgoingPub.set (nextPkidVal s) (some ⟨q, nextPkidVal s, t, none⟩),
-                                    inf := s.inflight + 1, lastPkid := (nextPkidSt s).lastPkid }) :
+      (hslot : s.outgoingPub[nextPkidVal s]? = some none) (hrel : relContains s (nextPkidVal s) = false)
+      (hc : s'.core = (s.core.bump s).store ⟨q, nextPkidVal s, t, none⟩) :
       LTrans s pd (.user (.publish q t)) s' []
-  | park (q t : Nat) (s' : State) (x : Pub) (hpd : pd = []) (hg : selectEnabled s [] = true) (hq : q ≠ 0)
-      (hslot : s.outgoingPub[nextPkidVal s]? = some (some x))
-      (hc : s'.core = { s.core with col := some ⟨q, nextPkidVal s, t, none⟩, lastPkid := (nextPkidSt s).lastPkid }) :
+  | parkFresh (q t : Nat) (s' : State) (hpd : pd = []) (hg : selectEnabled s [] = true) (hq : q ≠ 0)
+      (hbusy : busyId s (nextPkidVal s))
+      (hc : s'.core = { s.core.bump s with col := some ⟨q, nextPkidVal s, t, none⟩ }) :
       LTrans s pd (.user (.publish q t)) s' []
-  | replayPub (p : Pub) (rest : List Request) (s' : State) (hpd : pd = .publish p :: rest)
-      (hslot : s.outgoingPub[p.pkid]? = some none)
-      (hc : s'.core = { s.core with pub := s.outgoingPub.set p.pkid (some p), inf := s.inflight + 1 }) :
+  /-- a numbered publish of `pending` is stored again under its id -/
+  | replayPub (p : Pub) (rest : List Request) (s' : State) (hpd : pd = .publish p :: rest) (hid : p.pkid ≠ 0)
+      (hslot : s.outgoingPub[p.pkid]? = some none) (hrel : relContains s p.pkid = false)
+      (hc : s'.core = s.core.store p) :
+      LTrans s pd .pend s' rest
+  /-- … or finds its id in use (only after `failBeforeParkedReplayed`) -/
+  | replayPark (p : Pub) (rest : List Request) (s' : State) (hpd : pd = .publish p :: rest) (hid : p.pkid ≠ 0)
+      (hbusy : busyId s p.pkid)
+      (hc : s'.core = { s.core with col := some p }) :
+      LTrans s pd .pend s' rest
+  /-- the unnumbered publish of `pending` (parked when the connection failed) gets a fresh id -/
+  | replayFresh (p : Pub) (rest : List Request) (s' : State) (hpd : pd = .publish p :: rest) (hid : p.pkid = 0)
+      (hslot : s.outgoingPub[nextPkidVal s]? = some none) (hrel : relContains s (nextPkidVal s) = false)
+      (hc : s'.core = (s.core.bump s).store { p with pkid := nextPkidVal s }) :
+      LTrans s pd .pend s' rest
+  | replayFreshPark (p : Pub) (rest : List Request) (s' : State) (hpd : pd = .publish p :: rest) (hid : p.pkid = 0)
+      (hbusy : busyId s (nextPkidVal s))
+      (hc : s'.core = { s.core.bump s with col := some { p with pkid := nextPkidVal s } }) :
       LTrans s pd .pend s' rest
   | replayRel (i : Nat) (rest : List Request) (s' : State) (hpd : pd = .pubrel i :: rest)
       (hi : i < s.outgoingRel.length)
       (hc : s'.core = { s.core with rel := s.outgoingRel.set i true, inf := s.inflight + 1 }) :
       LTrans s pd .pend s' rest
-  | puback (i r : Nat) (s' : State) (o : Outcome) (he : PubackEff s i r (s', o)) : LTrans s pd (.inc (.puback i r)) s' pd
+  | puback (i r : Nat) (s' : State) (o : Outcome) (he : PubackEff s i (s', o)) : LTrans s pd (.inc (.puback i r)) s' pd
   | pubrec (i r : Nat) (s' : State) (o : Outcome) (he : PubrecEff s i r (s', o)) : LTrans s pd (.inc (.pubrec i r)) s' pd
-  | pubcomp (i r : Nat) (s' : State) (o : Outcome) (he : PubcompGen s i r (s', o)) : LTrans s pd (.inc (.pubcomp i r)) s' pd
-  | fail : LTrans s pd .fail (cleanState s) (pd ++ cleanRequests s)
+  | pubcomp (i r : Nat) (s' : State) (o : Outcome) (he : PubcompEff s i (s', o)) : LTrans s pd (.inc (.pubcomp i r)) s' pd
+  | fail : LTrans s pd .fail (cleanState s) (cleanRequests s ++ pd)
   | newSession : LTrans s pd .newSession s []
+
+/-- `outgoing_publish` once the id is fixed, under `Inv0`: the publish is stored or parked -/
+theorem publishWithId_cases {s : State} {pd : List Request} (h0 : Inv0 ⟨s, pd⟩) (p : Pub)
+    (h2 : p.pkid ≤ s.maxInflight) (hinf : s.inflight < u16Max) :
+    (s.outgoingPub[p.pkid]? = some none ∧ relContains s p.pkid = false ∧
+      publishWithId s p = ((storePub s p).pushOut (.publish p.pkid), .ok (some (.publish p)))) ∨
+    (busyId s p.pkid ∧
+      publishWithId s p = ({ s with collision := some p }.pushOut (.awaitAck p.pkid), .ok none)) := by
+  obtain ⟨slot, hslot⟩ := h0.slot_some p.pkid h2
+  cases slot with
+  | none =>
+    rcases Bool.eq_false_or_eq_true (relContains s p.pkid) with hr | hr
+    · exact Or.inr ⟨Or.inr hr, eff_publishWithId_park s p none hslot (Or.inr hr)⟩
+    · exact Or.inl ⟨hslot, hr, eff_publishWithId_store s p hslot hr hinf⟩
+  | some x => exact Or.inr ⟨Or.inl ⟨x, hslot⟩, eff_publishWithId_park s p (some x) hslot (Or.inl rfl)⟩
+
+theorem busyId_congr {s s' : State} (h : s'.core = s.core) (i : Nat) : busyId s' i ↔ busyId s i := by
+  obtain ⟨e1, e2, _⟩ := core_eqs h
+  unfold busyId relContains; rw [e1, e2]
+
+theorem busyId_nextPkidSt (s : State) (i : Nat) : busyId (nextPkidSt s) i ↔ busyId s i := by
+  have h := nextPkidSt_core s
+  have e1 : (nextPkidSt s).outgoingPub = s.outgoingPub := congrArg Core.pub h
+  have e2 : (nextPkidSt s).outgoingRel = s.outgoingRel := congrArg Core.rel h
+  unfold busyId relContains; rw [e1, e2]
 
 theorem lstep_trans {s : State} {pd : List Request} (h0 : Inv0 ⟨s, pd⟩) (op : LOp) :
     LTrans s pd op (lstep ⟨s, pd⟩ op).1.st (lstep ⟨s, pd⟩ op).1.pending := by
+  have hfresh : ∀ (p : Pub) (pd' : List Request), p.qos ≠ 0 → p.pkid = 0 → p.alias = none →
+      s.inflight + pd'.length + 1 + colCount s ≤ s.maxInflight →
+      (s.outgoingPub[nextPkidVal s]? = some none ∧ relContains s (nextPkidVal s) = false ∧
+        (drainEvents (handleOutgoing s (.publish p)).1).core = (s.core.bump s).store { p with pkid := nextPkidVal s }) ∨
+      (busyId s (nextPkidVal s) ∧
+        (drainEvents (handleOutgoing s (.publish p)).1).core =
+          { s.core.bump s with col := some { p with pkid := nextPkidVal s } }) := by
+    intro p pd' hq hid ha hw
+    obtain ⟨hp, hv1, hv2, hv3⟩ := h0.nextPkid
+    rw [eff_publish_fresh s p ha hq hid hp]
+    have hn := h0.nextPkidSt
+    have hcore := nextPkidSt_core s
+    have e1 : (nextPkidSt s).outgoingPub = s.outgoingPub := congrArg Core.pub hcore
+    have e2 : (nextPkidSt s).inflight = s.inflight := congrArg Core.inf hcore
+    have e3 : (nextPkidSt s).outgoingRel = s.outgoingRel := congrArg Core.rel hcore
+    have hmx : (nextPkidSt s).maxInflight = s.maxInflight := (nextPkidSt_frame s).2.1
+    have hup := h0.upLe; have hml := h0.maxLe
+    simp only at hup hml
+    rcases publishWithId_cases hn { p with pkid := nextPkidVal s } (by rw [hmx]; exact hv2) (by rw [e2]; omega) with
+      ⟨hs, hr, heq⟩ | ⟨hb, heq⟩
+    · refine Or.inl ⟨by rw [← e1]; exact hs, by unfold relContains at hr ⊢; rw [← e3]; exact hr, ?_⟩
+      rw [heq, core_drain, core_pushOut, storePub_core, hcore]; rfl
+    · refine Or.inr ⟨(busyId_nextPkidSt s _).mp hb, ?_⟩
+      rw [heq, core_drain, core_pushOut]
+      simp only [State.core, Core.bump]
+      have h3 := congrArg Core.rel hcore; have h5 := congrArg Core.ord hcore; have h6 := congrArg Core.cnt hcore
+      simp only [State.core] at h3 h5 h6
+      simp [e1, e2, h3, h5, h6]
   unfold Client.lstep
   cases op with
   | user u =>
@@ -98,30 +130,10 @@ theorem lstep_trans {s : State} {pd : List Request} (h0 : Inv0 ⟨s, pd⟩) (op 
         simp only [UserReq.toRequest]
         by_cases hq : q = 0
         · subst hq; rw [eff_publish_qos0]; exact .quiet _ _ rfl
-        · obtain ⟨hp, hv1, hv2, hv3⟩ := h0.nextPkid
-          rw [eff_publish_fresh s q t hq hp]
-          have hn := h0.nextPkidSt
-          have hcore := nextPkidSt_core s
-          have e1 : (nextPkidSt s).outgoingPub = s.outgoingPub := congrArg Core.pub hcore
-          have e2 : (nextPkidSt s).inflight = s.inflight := congrArg Core.inf hcore
-          have hup := h0.upLe; have hml := h0.maxLe
-          have hgate : s.inflight < s.maxInflight := by simp [selectEnabled] at hgt; exact hgt.1
-          simp only at hup hml
-          have hmx : (nextPkidSt s).maxInflight = s.maxInflight := (nextPkidSt_frame s).2.1
-          rcases hn.slot_cases (nextPkidVal s) (by rw [hmx]; exact hv2) with hs | ⟨x, hs⟩
-          · rw [eff_publishWithId_store _ _ rfl hs (by rw [e2]; omega)]
-            refine .storeFresh q t _ rfl hgt hq (by rw [← e1]; exact hs) ?_
-            rw [core_drain, core_pushOut]
-            simp only [State.core, hcore, e1, e2]
-            have := congrArg Core.rel hcore; have h4 := congrArg Core.col hcore; have h5 := congrArg Core.lastPuback hcore
-            simp only [State.core] at this h4 h5
-            simp [this, h4, h5]
-          · rw [eff_publishWithId_park _ _ x hs]
-            refine .park q t _ x rfl hgt hq (by rw [← e1]; exact hs) ?_
-            rw [core_drain, core_pushOut]
-            have h3 := congrArg Core.rel hcore; have h5 := congrArg Core.lastPuback hcore
-            simp only [State.core] at h3 h5
-            simp [State.core, e1, e2, h3, h5]
+        · have hgate := gate_open hgt
+          rcases hfresh ⟨q, 0, t, none⟩ [] hq rfl rfl (by simp [colCount, hgate.2]; omega) with ⟨hs, hr, heq⟩ | ⟨hb, heq⟩
+          · exact .storeFresh q t _ rfl hgt hq hs hr heq
+          · exact .parkFresh q t _ rfl hgt hq hb heq
       · have hu' : ∀ q t, u ≠ .publish q t := fun q t h => hu ⟨q, t, h⟩
         cases u with
         | publish q t => exact absurd rfl (hu' q t)
@@ -132,11 +144,11 @@ theorem lstep_trans {s : State} {pd : List Request} (h0 : Inv0 ⟨s, pd⟩) (op 
             exact .quiet _ _ rfl
           · obtain ⟨hp, _⟩ := h0.nextPkid
             simp only [UserReq.toRequest, handleOutgoing, outgoingSubscribe, hn0, if_false, hp, Bool.false_eq_true]
-            exact .nextId _ _ rfl hgt (Or.inl ⟨n, hn0, rfl⟩) (by rw [core_drain, core_pushOut, nextPkidSt_core])
+            exact .nextId _ _ rfl hgt (Or.inl ⟨n, hn0, rfl⟩) (by rw [core_drain, core_pushOut, nextPkidSt_core]; rfl)
         | unsubscribe =>
           obtain ⟨hp, _⟩ := h0.nextPkid
           simp only [UserReq.toRequest, handleOutgoing, outgoingUnsubscribe, hp, Bool.false_eq_true, if_false]
-          exact .nextId _ _ rfl hgt (Or.inr rfl) (by rw [core_drain, core_pushOut, nextPkidSt_core])
+          exact .nextId _ _ rfl hgt (Or.inr rfl) (by rw [core_drain, core_pushOut, nextPkidSt_core]; rfl)
         | disconnect => exact .quiet _ _ rfl
         | puback i => exact .quiet _ _ rfl
         | pubrec i => exact .quiet _ _ rfl
@@ -146,15 +158,31 @@ theorem lstep_trans {s : State} {pd : List Request} (h0 : Inv0 ⟨s, pd⟩) (op 
     cases pd with
     | nil => exact .skip _
     | cons r rest =>
-      simp only [lop?, lpending, sstepSt, List.tail_cons]
+      by_cases hrd : pendingReady s (r :: rest) = true
+      case neg => simp only [lop?, hrd]; exact .skip _
+      simp only [lop?, hrd, if_true, lpending, sstepSt, List.tail_cons]
+      have hw := h0.window; have hml := h0.maxLe; have hul := h0.upLe
+      simp only [List.length_cons] at hw hml hul
       cases r with
       | publish p =>
-        obtain ⟨hq, hp1, hp2, ha, hslot, hinf, hne⟩ := h0.pend_publish
-        rw [eff_publish_replay s p hq (by omega), eff_publishWithId_store s p ha hslot hinf]
-        exact .replayPub p rest _ rfl hslot rfl
+        have h1 := h0.pendWF (.publish p) (by simp)
+        simp only [PendOK] at h1
+        obtain ⟨hq, h2, ha⟩ := h1
+        by_cases hid : p.pkid = 0
+        · rcases hfresh p rest hq hid ha (by omega) with ⟨hs, hr, heq⟩ | ⟨hb, heq⟩
+          · exact .replayFresh p rest _ rfl hid hs hr heq
+          · exact .replayFreshPark p rest _ rfl hid hb heq
+        · rw [eff_publish_replay s p ha hq hid]
+          rcases publishWithId_cases h0 p h2 (by omega) with ⟨hs, hr, heq⟩ | ⟨hb, heq⟩
+          · rw [heq]; exact .replayPub p rest _ rfl hid hs hr (by rw [core_drain, core_pushOut, storePub_core])
+          · rw [heq]; exact .replayPark p rest _ rfl hid hb rfl
       | pubrel i =>
-        obtain ⟨hi1, hi2, hlt, hinf⟩ := h0.pend_pubrel
-        rw [eff_pubrel_replay s i (by omega) hlt hinf]
+        have h1 := h0.pendWF (.pubrel i) (by simp)
+        simp only [PendOK] at h1
+        have hlen := h0.sinv.lenRel
+        simp only at hlen
+        have hlt : i < s.outgoingRel.length := by omega
+        rw [eff_pubrel_replay s i (by omega) hlt (by omega)]
         exact .replayRel i rest _ rfl hlt rfl
       | subscribe n => exact absurd (h0.pendWF (.subscribe n) (by simp)) (by simp [PendOK])
       | unsubscribe => exact absurd (h0.pendWF .unsubscribe (by simp)) (by simp [PendOK])
@@ -173,7 +201,7 @@ theorem lstep_trans {s : State} {pd : List Request} (h0 : Inv0 ⟨s, pd⟩) (op 
     by_cases hack : ∃ i r, p = .puback i r
     · obtain ⟨i, r, rfl⟩ := hack
       rw [handleIncoming_puback]
-      exact .puback i r _ _ ((handlePuback_eff hs0 i r).transfer rfl rfl)
+      exact .puback i r _ _ ((handlePuback_eff hs0 i).transfer rfl)
     · by_cases hrec : ∃ i r, p = .pubrec i r
       · obtain ⟨i, r, rfl⟩ := hrec
         rw [handleIncoming_pubrec]
@@ -181,7 +209,7 @@ theorem lstep_trans {s : State} {pd : List Request} (h0 : Inv0 ⟨s, pd⟩) (op 
       · by_cases hcomp : ∃ i r, p = .pubcomp i r
         · obtain ⟨i, r, rfl⟩ := hcomp
           rw [handleIncoming_pubcomp]
-          exact .pubcomp i r _ _ ((handlePubcomp_gen hs0 i r).transfer rfl rfl)
+          exact .pubcomp i r _ _ ((handlePubcomp_eff hs0 i).transfer rfl)
         · have ho := otherIncoming_eff s p (fun i r h => hack ⟨i, r, h⟩) (fun i r h => hrec ⟨i, r, h⟩)
             (fun i r h => hcomp ⟨i, r, h⟩)
           exact .quiet _ _ (by rw [core_drain, ho.1])
